@@ -132,7 +132,14 @@ func runBehaviour(b *Behaviour, opts *MatOpts, src string, onCall func(k int, c 
 				session = s2
 				tr.before(session)
 			}
-			res, err := readResume(sa, matResume(c, i))
+			rj := matResume(c, i)
+			if opts.ResumePolicy != "" {
+				var rm M
+				json.Unmarshal(rj, &rm)
+				rm["environment"] = M{"date_format": "YYYY-MM-DD", "time_format": "tt:mm", "timezone": "UTC", "redaction_policy": opts.ResumePolicy, "default_country": "US"}
+				rj = mustJSON(rm)
+			}
+			res, err := readResume(sa, rj)
 			if err != nil {
 				return fmt.Errorf("resume: %w", err)
 			}
